@@ -49,7 +49,9 @@ pub fn plan(prop: &str, seed: u64, index: u64, thorough: bool) -> RunPlan {
     if rng.chance(17, 20) {
         let pi = index % (n * n);
         forced.push(kinds[(pi / n) as usize]);
-        if rng.chance(1, 2) {
+        if rng.chance(3, 20) {
+            forced.push(TWIN);
+        } else if rng.chance(1, 2) {
             forced.push(kinds[(pi % n) as usize]);
         } else {
             // a partner that holds locks for long or takes them in an unusual order
@@ -206,7 +208,16 @@ pub fn c16_violations(prep: &Prepared, res: &ConcResult, stats: &mut BTreeMap<St
         for order in &orders {
             if let Some((fin, rets)) = run_sequential(sc, order, &skip) {
                 if fin == conc_final {
-                    let diff: Vec<String> = conc_rets.iter().zip(rets.iter()).filter(|(a, b)| a != b).map(|((l, _), _)| kind_of(*l)).collect();
+                    // the call whose result is unexplained, with the kind of result it got concurrently
+                    let diff: Vec<String> = conc_rets
+                        .iter()
+                        .zip(rets.iter())
+                        .filter(|(a, b)| a != b)
+                        .map(|((l, _), _)| {
+                            let oc = res.outcomes.iter().find(|o| o.label == *l).map(|o| outcome(&o.ret)).unwrap_or_default();
+                            format!("{}={}", kind_of(*l), oc)
+                        })
+                        .collect();
                     if best.as_ref().map(|b| diff.len() < b.len()).unwrap_or(true) {
                         best = Some(diff);
                     }
@@ -772,6 +783,9 @@ pub fn check_conc(prop: &str, thorough: bool) -> i32 {
                 "unlisted_and_not_confirmed_by_directed_search": unconfirmed,
             }
         });
+    }
+    if prop == "C16" {
+        extra = json!({ "lock_only_neighbour_differential": total.extra });
     }
     let wall = t0.elapsed().as_secs_f64();
     write_evidence(&spec, base, &total, wall, n_viol, &known_seen, extra);
